@@ -75,6 +75,7 @@ type op struct {
 	B       []op      `json:"b"`       // race: the operations that run to completion meanwhile
 	Order   []int     `json:"order"`   // peerfail: the order in which the survivors are told
 	Stagger bool      `json:"stagger"` // peerfail: deliver gossip between the notifications
+	Cut     int       `json:"cut"`     // connect / pub: the packet arrives in two segments, cut after this many bytes; the operations in B run in between
 }
 type authEnt struct {
 	U string `json:"u"`
@@ -437,6 +438,23 @@ func (x *runner) backgroundIdle() bool {
 	return true
 }
 
+// firstSegment: when the operation asks for it (cut), the first bytes of the packet are written on their own - as a TCP segment of
+// their own would arrive -, the broker is given the time to read them and to wait for more, the operations in B run, and the rest
+// of the packet is returned for the caller to send (and to record: a packet is sent when its last byte is).
+func (x *runner) firstSegment(cl *node.Client, o op, raw []byte) []byte {
+	if o.Cut <= 0 || o.Cut >= len(raw) {
+		return raw
+	}
+	if cl.Conn.ClientWrite(raw[:o.Cut]) != nil {
+		return raw
+	}
+	x.w.WaitFor(func() bool { return cl.Conn.Reading() }, 2*time.Second)
+	for _, b := range o.B {
+		x.step(b)
+	}
+	return raw[o.Cut:]
+}
+
 func (x *runner) step(o op) {
 	w := x.w
 	switch o.Op {
@@ -459,7 +477,7 @@ func (x *runner) step(o op) {
 		} else {
 			ev["will"] = willSpec{T: []string{}}
 		}
-		cl.SendConnect(ev, mq.Connect(o.Client, o.User, o.Pass, o.KA, true, will))
+		cl.SendConnect(ev, x.firstSegment(cl, o, mq.Connect(o.Client, o.User, o.Pass, o.KA, true, will)))
 		if o.NoWait {
 			return
 		}
@@ -504,7 +522,7 @@ func (x *runner) step(o op) {
 			payload = payload + "|" + strings.Repeat("x", o.Size-len(payload)-1)
 		}
 		cl.Send(rec.Ev{"kind": "PUBLISH", "t": o.T, "p": node.PayloadID([]byte(payload)), "q": o.Q, "r": o.R, "id": o.ID, "dup": o.Dup},
-			mq.Publish(w.Register(o.T), []byte(payload), o.Q, o.R, o.Dup, o.ID))
+			x.firstSegment(cl, o, mq.Publish(w.Register(o.T), []byte(payload), o.Q, o.R, o.Dup, o.ID)))
 		if !o.NoWait {
 			x.settle()
 		}
